@@ -355,3 +355,313 @@ pub proof fn lemma_tol_side_b(g: int, h: int, x: int, r: int, bb: int, s: int, x
     }
     ax_divm_unique(e_b, e1, n, e2);
 }
+
+// ---- generic Schnorr completeness over a list of (base, rho, sigma) triples ---------------------------------------
+/// prod_{j<k} B_j ^ x_j  (each factor reduced mod n, product not)
+pub open spec fn pw_prod(bs: Seq<int>, xs: Seq<int>, n: int, k: int) -> int
+    decreases k,
+{
+    if k <= 0 { 1 } else { pw_prod(bs, xs, n, k - 1) * pow_mod(bs[k - 1], xs[k - 1], n) }
+}
+
+/// prod B_j^(rho_j + c sigma_j)  ==  prod B_j^(rho_j) * (prod B_j^(sigma_j))^c   (mod n), all B_j units, c >= 0
+pub proof fn lemma_pw_response(bs: Seq<int>, rho: Seq<int>, sigma: Seq<int>, xs: Seq<int>, c: int, n: int, k: int)
+    requires
+        n > 0, c >= 0, 0 <= k <= bs.len(), k <= rho.len(), k <= sigma.len(), k <= xs.len(),
+        forall|j: int| 0 <= j < k ==> #[trigger] xs[j] == rho[j] + c * sigma[j],
+        forall|j: int| 0 <= j < k ==> invertible(#[trigger] bs[j], n),
+    ensures cong(pw_prod(bs, xs, n, k), pw_prod(bs, rho, n, k) * pow_mod(pw_prod(bs, sigma, n, k), c, n), n),
+    decreases k,
+{
+    if k <= 0 {
+        lemma_one_pow(c, n);
+        lemma_cong_mod(1, n);
+    } else {
+        lemma_pw_response(bs, rho, sigma, xs, c, n, k - 1);
+        let b = bs[k - 1];
+        let (px, pr, ps) = (pw_prod(bs, xs, n, k - 1), pw_prod(bs, rho, n, k - 1), pw_prod(bs, sigma, n, k - 1));
+        let f = pow_mod(b, sigma[k - 1], n);
+        let (psc, fc, br, bx) = (pow_mod(ps, c, n), pow_mod(f, c, n), pow_mod(b, rho[k - 1], n), pow_mod(b, xs[k - 1], n));
+        assert(xs[k - 1] == rho[k - 1] + c * sigma[k - 1]);
+        lemma_resp_pow(b, rho[k - 1], c, sigma[k - 1], n);
+        lemma_cong_mul(px, pr * psc, bx, br * fc, n);
+        assert((pr * psc) * (br * fc) == (pr * br) * (psc * fc)) by (nonlinear_arith);
+        ax_pow_mod_prod(ps, f, c, n);
+        lemma_cong_mod(psc * fc, n);
+        lemma_cong_mul(pr * br, pr * br, psc * fc, pow_mod(ps * f, c, n), n);
+    }
+}
+
+/// a product of unit powers is a unit
+pub proof fn lemma_pw_unit(bs: Seq<int>, xs: Seq<int>, n: int, k: int)
+    requires n > 1, 0 <= k <= bs.len(), k <= xs.len(), forall|j: int| 0 <= j < k ==> invertible(#[trigger] bs[j], n),
+    ensures igcd(pw_prod(bs, xs, n, k), n) == 1,
+    decreases k,
+{
+    if k <= 0 {
+        ax_gcd_one(n);
+    } else {
+        lemma_pw_unit(bs, xs, n, k - 1);
+        ax_gcd_pow_mod(bs[k - 1], xs[k - 1], n);
+        ax_gcd_mul(pw_prod(bs, xs, n, k - 1), pow_mod(bs[k - 1], xs[k - 1], n), n);
+    }
+}
+
+/// verifier's recomputation, generic form:  (prod B_j^(rho_j + c sigma_j)) % n == (prod B_j^(rho_j)) % n   when prod B_j^(sigma_j) == 1 (mod n)
+/// (a statement "y == prod B^sigma" is folded in as the extra triple (y, 0, -1))
+pub proof fn lemma_pw_complete(bs: Seq<int>, rho: Seq<int>, sigma: Seq<int>, xs: Seq<int>, c: int, n: int)
+    requires
+        n > 0, c >= 0, bs.len() == rho.len(), bs.len() == sigma.len(), bs.len() == xs.len(),
+        forall|j: int| 0 <= j < bs.len() ==> #[trigger] xs[j] == rho[j] + c * sigma[j],
+        forall|j: int| 0 <= j < bs.len() ==> invertible(#[trigger] bs[j], n),
+        cong(pw_prod(bs, sigma, n, bs.len() as int), 1, n),
+    ensures pw_prod(bs, xs, n, bs.len() as int) % n == pw_prod(bs, rho, n, bs.len() as int) % n,
+{
+    let k = bs.len() as int;
+    let (px, pr, ps) = (pw_prod(bs, xs, n, k), pw_prod(bs, rho, n, k), pw_prod(bs, sigma, n, k));
+    lemma_pw_response(bs, rho, sigma, xs, c, n, k);
+    // ps^c == (ps % n)^c == (1 % n)^c == 1^c == 1
+    ax_pow_mod_base_mod(ps, c, n);
+    ax_pow_mod_base_mod(1, c, n);
+    lemma_one_pow(c, n);
+    assert(pow_mod(ps, c, n) == 1int % n);
+    lemma_cong_mod(1, n);
+    lemma_cong_mul(pr, pr, pow_mod(ps, c, n), 1, n);
+    assert(pr * 1 == pr);
+}
+
+/// int-sequence form of the "same secrets" side:  (prod B^(rs + c ms) * hb^(mu + c r)) * cv^(-c)  ==  prod B^(rs) * hb^(mu)   (mod n, reduced)
+/// when cv == prod B^(ms) * hb^(r) % n is a unit
+pub proof fn lemma_all_side(bs: Seq<int>, ms: Seq<int>, rs: Seq<int>, xs: Seq<int>, hb: int, r: int, mu: int, c: int, cv: int, n: int)
+    requires
+        n > 0, c >= 0, bs.len() == ms.len(), bs.len() == rs.len(), bs.len() == xs.len(),
+        forall|j: int| 0 <= j < bs.len() ==> #[trigger] xs[j] == rs[j] + c * ms[j],
+        forall|j: int| 0 <= j < bs.len() ==> invertible(#[trigger] bs[j], n),
+        invertible(hb, n), invertible(cv, n),
+        cv == (pw_prod(bs, ms, n, bs.len() as int) * pow_mod(hb, r, n)) % n,
+    ensures
+        ((pw_prod(bs, xs, n, bs.len() as int) * pow_mod(hb, mu + c * r, n)) * pow_mod(cv, -1 * c, n)) % n == (pw_prod(bs, rs, n, bs.len() as int) * pow_mod(hb, mu, n)) % n,
+{
+    let k = bs.len() as int;
+    let (px, pr, pm) = (pw_prod(bs, xs, n, k), pw_prod(bs, rs, n, k), pw_prod(bs, ms, n, k));
+    let (hmu, hr) = (pow_mod(hb, mu, n), pow_mod(hb, r, n));
+    let (pmc, hrc) = (pow_mod(pm, c, n), pow_mod(hr, c, n));
+    let (cc, ci) = (pow_mod(cv, c, n), pow_mod(cv, -1 * c, n));
+    let w = (pr * hmu) % n;
+    lemma_pw_response(bs, rs, ms, xs, c, n, k);
+    lemma_resp_pow(hb, mu, c, r, n);
+    lemma_cong_mul(px, pr * pmc, pow_mod(hb, mu + c * r, n), hmu * hrc, n);
+    lemma_pow_of_commit(pm, hr, c, n);
+    lemma_cong_mod(pr * hmu, n);
+    lemma_cong_mul(w, pr * hmu, cc, pmc * hrc, n);
+    assert((pr * pmc) * (hmu * hrc) == (pr * hmu) * (pmc * hrc)) by (nonlinear_arith);
+    let lhs0 = px * pow_mod(hb, mu + c * r, n);
+    assert(cong(lhs0, w * cc, n));
+    lemma_cong_mul(lhs0, w * cc, ci, ci, n);
+    lemma_inverse_cancel(cv, c, n);
+    lemma_cong_mul(w, w, ci * cc, 1, n);
+    assert((w * cc) * ci == w * (ci * cc)) by (nonlinear_arith);
+    assert(w * 1 == w);
+    lemma_mod_twice(pr * hmu, n);
+}
+
+/// the inverse computed by divm:  divm(1, x) == x^(-1), and its powers are negative powers of x
+pub proof fn lemma_divm_inv(x: int, k: int, n: int)
+    requires invertible(x, n),
+    ensures divm_spec(1, x, n) == pow_mod(x, -1, n), pow_mod(divm_spec(1, x, n), k, n) == pow_mod(x, -1 * k, n),
+{
+    let y = pow_mod(x, -1, n);
+    lemma_inverse_cancel(x, 1, n);
+    ax_pow_mod_one(x, n);
+    ax_pow_mod_range(x, -1, n);
+    // y * x == y * (x % n) == 1 (mod n)
+    lemma_mul_mod_noop_general(y, x, n);
+    assert((y * x) % n == 1int % n);
+    ax_divm_unique(1, x, n, y);
+    ax_pow_mod_mul(x, -1, k, n);
+}
+
+/// signature proof, third commitment:  Cw^(r4 + c e) * g0^-(r8 + c w e) * h^-(r2 + c rw e)  ==  Cw^r4 * g0^-r8 * h^-r2   (mod n, reduced),  Cw = g0^w h^rw % n
+pub proof fn lemma_n5_eq3(g0: int, h: int, w: int, rw: int, e: int, r4: int, r8: int, r2: int, c: int, n: int)
+    requires n > 0, c >= 0, invertible(g0, n), invertible(h, n),
+    ensures ({
+        let cw = (pow_mod(g0, w, n) * pow_mod(h, rw, n)) % n;
+        (pow_mod(cw, r4 + c * e, n) * pow_mod(g0, -1 * (r8 + c * (w * e)), n) * pow_mod(h, -1 * (r2 + c * (rw * e)), n)) % n
+            == (pow_mod(cw, r4, n) * pow_mod(g0, -1 * r8, n) * pow_mod(h, -1 * r2, n)) % n
+    }),
+{
+    let cw = (pow_mod(g0, w, n) * pow_mod(h, rw, n)) % n;
+    lemma_commit_unit(g0, h, w, rw, n);
+    let bs = seq![cw, g0, h];
+    let xs = seq![r4 + c * e, -1 * (r8 + c * (w * e)), -1 * (r2 + c * (rw * e))];
+    let rho = seq![r4, -1 * r8, -1 * r2];
+    let sigma = seq![e, -1 * (w * e), -1 * (rw * e)];
+    assert(-1 * (r8 + c * (w * e)) == -1 * r8 + c * (-1 * (w * e))) by (nonlinear_arith);
+    assert(-1 * (r2 + c * (rw * e)) == -1 * r2 + c * (-1 * (rw * e))) by (nonlinear_arith);
+    // statement: Cw^e * g0^(-we) * h^(-rw e) == 1
+    let (gw, hrw) = (pow_mod(g0, w, n), pow_mod(h, rw, n));
+    ax_gcd_pow_mod(g0, w, n);
+    ax_gcd_pow_mod(h, rw, n);
+    lemma_pow_of_commit(gw, hrw, e, n);
+    ax_pow_mod_mul(g0, w, e, n);
+    ax_pow_mod_mul(h, rw, e, n);
+    let (gwe, hrwe, gm, hm) = (pow_mod(g0, w * e, n), pow_mod(h, rw * e, n), pow_mod(g0, -1 * (w * e), n), pow_mod(h, -1 * (rw * e), n));
+    assert(cong(pow_mod(cw, e, n), gwe * hrwe, n));
+    ax_pow_mod_add(g0, w * e, -1 * (w * e), n);
+    ax_pow_mod_add(h, rw * e, -1 * (rw * e), n);
+    ax_pow_mod_one(g0, n);
+    ax_pow_mod_one(h, n);
+    lemma_cong_mod(gwe * gm, n);
+    lemma_cong_mod(hrwe * hm, n);
+    lemma_cong_mod(1, n);
+    assert(cong(gwe * gm, 1, n));
+    assert(cong(hrwe * hm, 1, n));
+    lemma_cong_mul(gwe * gm, 1, hrwe * hm, 1, n);
+    lemma_cong_mul(pow_mod(cw, e, n), gwe * hrwe, gm * hm, gm * hm, n);
+    assert((gwe * hrwe) * (gm * hm) == (gwe * gm) * (hrwe * hm)) by (nonlinear_arith);
+    assert(pw_prod(bs, sigma, n, 3) == ((1 * pow_mod(cw, e, n)) * gm) * hm) by { reveal_with_fuel(pw_prod, 4); }
+    assert(((1 * pow_mod(cw, e, n)) * gm) * hm == pow_mod(cw, e, n) * (gm * hm)) by (nonlinear_arith);
+    assert(cong(pw_prod(bs, sigma, n, 3), 1, n));
+    lemma_pw_complete(bs, rho, sigma, xs, c, n);
+    assert(pw_prod(bs, xs, n, 3) == ((1 * pow_mod(cw, xs[0], n)) * pow_mod(g0, xs[1], n)) * pow_mod(h, xs[2], n)) by { reveal_with_fuel(pw_prod, 4); }
+    assert(pw_prod(bs, rho, n, 3) == ((1 * pow_mod(cw, rho[0], n)) * pow_mod(g0, rho[1], n)) * pow_mod(h, rho[2], n)) by { reveal_with_fuel(pw_prod, 4); }
+}
+
+/// (a*b)*(c*d) == (a*c)*(b*d)
+pub proof fn lemma_int_shuffle4(a: int, b: int, c: int, d: int)
+    ensures (a * b) * (c * d) == (a * c) * (b * d),
+{
+    assert((a * b) * (c * d) == (a * c) * (b * d)) by (nonlinear_arith);
+}
+
+/// x * x^(-1) == 1 (mod n) and x^k * x^(-k) == 1 (mod n) for a unit x
+pub proof fn lemma_unit_cancel(x: int, k: int, n: int)
+    requires invertible(x, n),
+    ensures cong(x * pow_mod(x, -1, n), 1, n), cong(pow_mod(x, k, n) * pow_mod(x, -1 * k, n), 1, n),
+{
+    lemma_inverse_cancel(x, 1, n);
+    ax_pow_mod_one(x, n);
+    lemma_cong_mod(x, n);
+    lemma_cong_mul(pow_mod(x, -1, n), pow_mod(x, -1, n), pow_mod(x, 1, n), x, n);
+    assert(pow_mod(x, -1, n) * x == x * pow_mod(x, -1, n)) by (nonlinear_arith);
+    lemma_inverse_cancel(x, k, n);
+    assert(pow_mod(x, -1 * k, n) * pow_mod(x, k, n) == pow_mod(x, k, n) * pow_mod(x, -1 * k, n)) by (nonlinear_arith);
+}
+
+/// signature proof, first commitment.  With Cv = v g0^w % n, a valid signature v^e == A b^s cpk (mod n), A = prod a_i^{m_i},
+/// tx = prod a_i^{rs_i + c m_i} % n, tr = prod a_i^{rs_i} % n:
+///   Cv^(r4 + c e) / tx / b^(r6 + c s) / g0^(r8 + c w e) * cpk^(-c)  ==  Cv^r4 / tr / b^r6 / g0^r8     (mod n, reduced; "/" as the code computes it with divm)
+pub proof fn lemma_n5_eq1(as_: Seq<int>, ms: Seq<int>, rs: Seq<int>, xs: Seq<int>, b: int, g0: int, cpk: int, v: int, w: int, e: int, sv: int,
+    r4: int, r6: int, r8: int, c: int, n: int)
+    requires
+        n > 1, c >= 0, as_.len() == ms.len(), as_.len() == rs.len(), as_.len() == xs.len(),
+        forall|j: int| 0 <= j < as_.len() ==> #[trigger] xs[j] == rs[j] + c * ms[j],
+        forall|j: int| 0 <= j < as_.len() ==> invertible(#[trigger] as_[j], n),
+        invertible(b, n), invertible(g0, n), invertible(cpk, n), invertible(v, n),
+        pow_mod(v, e, n) == (pw_prod(as_, ms, n, as_.len() as int) * pow_mod(b, sv, n) * cpk) % n,
+    ensures ({
+        let k = as_.len() as int;
+        let cv = (v * pow_mod(g0, w, n)) % n;
+        let tx = pw_prod(as_, xs, n, k) % n;
+        let tr = pw_prod(as_, rs, n, k) % n;
+        (pow_mod(cv, r4 + c * e, n) * divm_spec(1, tx, n) * pow_mod(divm_spec(1, b, n), r6 + c * sv, n) * pow_mod(divm_spec(1, g0, n), r8 + c * (w * e), n) * pow_mod(cpk, -1 * c, n)) % n
+            == (pow_mod(cv, r4, n) * divm_spec(1, tr, n) * pow_mod(divm_spec(1, b, n), r6, n) * pow_mod(divm_spec(1, g0, n), r8, n)) % n
+    }),
+{
+    let k = as_.len() as int;
+    let (aa, px, pr) = (pw_prod(as_, ms, n, k), pw_prod(as_, xs, n, k), pw_prod(as_, rs, n, k));
+    let (tx, tr) = (px % n, pr % n);
+    let gw = pow_mod(g0, w, n);
+    let cv = (v * gw) % n;
+    let (s4, s6, s8) = (r4 + c * e, r6 + c * sv, r8 + c * (w * e));
+    // units
+    lemma_pw_unit(as_, ms, n, k); lemma_pw_unit(as_, xs, n, k); lemma_pw_unit(as_, rs, n, k);
+    ax_gcd_mod(px, n); ax_gcd_mod(pr, n);
+    ax_gcd_pow_mod(g0, w, n); ax_gcd_mul(v, gw, n); ax_gcd_mod(v * gw, n);
+    // ---- (1) the statement: cv^e * A^-1 * b^-s * g0^-(we) * cpk^-1 == 1
+    let (ve, gwe) = (pow_mod(v, e, n), pow_mod(g0, w * e, n));
+    let (bs_, bms, gmwe, ai, ci) = (pow_mod(b, sv, n), pow_mod(b, -1 * sv, n), pow_mod(g0, -1 * (w * e), n), pow_mod(aa, -1, n), pow_mod(cpk, -1, n));
+    lemma_pow_of_commit(v, gw, e, n);
+    ax_pow_mod_mul(g0, w, e, n);
+    assert(cong(pow_mod(cv, e, n), ve * gwe, n));
+    lemma_cong_mod(aa * bs_ * cpk, n);
+    assert(cong(ve, aa * bs_ * cpk, n));
+    lemma_unit_cancel(aa, 1, n);
+    lemma_unit_cancel(b, sv, n);
+    lemma_unit_cancel(g0, w * e, n);
+    lemma_unit_cancel(cpk, 1, n);
+    lemma_cong_mul(ve, aa * bs_ * cpk, gwe, gwe, n);
+    lemma_cong_mul(pow_mod(cv, e, n), (aa * bs_ * cpk) * gwe, ai * bms * gmwe * ci, ai * bms * gmwe * ci, n);
+    assert(((aa * bs_ * cpk) * gwe) * (ai * bms * gmwe * ci) == ((aa * ai) * (bs_ * bms)) * ((gwe * gmwe) * (cpk * ci))) by {
+        let (x1, x2, y1, y2) = (aa * bs_, gwe * cpk, ai * bms, gmwe * ci);
+        assert((aa * bs_ * cpk) * gwe == x1 * x2) by (nonlinear_arith) requires x1 == aa * bs_, x2 == gwe * cpk;
+        assert(ai * bms * gmwe * ci == y1 * y2) by (nonlinear_arith) requires y1 == ai * bms, y2 == gmwe * ci;
+        lemma_int_shuffle4(x1, x2, y1, y2);
+        lemma_int_shuffle4(aa, bs_, ai, bms);
+        lemma_int_shuffle4(gwe, cpk, gmwe, ci);
+    }
+    lemma_cong_mul(aa * ai, 1, bs_ * bms, 1, n);
+    lemma_cong_mul(gwe * gmwe, 1, cpk * ci, 1, n);
+    lemma_cong_mul((aa * ai) * (bs_ * bms), 1, (gwe * gmwe) * (cpk * ci), 1, n);
+    let stmt = pow_mod(cv, e, n) * (ai * bms * gmwe * ci);
+    assert(cong(stmt, 1, n));
+    // ---- (2) generic completeness over [cv, tr, A, b, g0, cpk]
+    let bsq = seq![cv, tr, aa, b, g0, cpk];
+    let xsq = seq![s4, -1int, -1 * c, -1 * s6, -1 * s8, -1 * c];
+    let rho = seq![r4, -1int, 0int, -1 * r6, -1 * r8, 0int];
+    let sig = seq![e, 0int, -1int, -1 * sv, -1 * (w * e), -1int];
+    assert(-1 * s6 == -1 * r6 + c * (-1 * sv)) by (nonlinear_arith) requires s6 == r6 + c * sv;
+    assert(-1 * s8 == -1 * r8 + c * (-1 * (w * e))) by (nonlinear_arith) requires s8 == r8 + c * (w * e);
+    assert(-1 * c == 0 + c * (-1int)) by (nonlinear_arith);
+    assert(-1int == -1int + c * 0int) by (nonlinear_arith);
+    ax_pow_mod_one(tr, n);
+    assert(pw_prod(bsq, sig, n, 6) == (((((1 * pow_mod(cv, e, n)) * pow_mod(tr, 0, n)) * ai) * bms) * gmwe) * ci) by { reveal_with_fuel(pw_prod, 7); }
+    lemma_cong_mod(1, n);
+    lemma_cong_mul(pow_mod(cv, e, n), pow_mod(cv, e, n), pow_mod(tr, 0, n), 1, n);
+    lemma_cong_mul(pow_mod(cv, e, n) * pow_mod(tr, 0, n), pow_mod(cv, e, n) * 1, ai * bms * gmwe * ci, ai * bms * gmwe * ci, n);
+    assert((((((1 * pow_mod(cv, e, n)) * pow_mod(tr, 0, n)) * ai) * bms) * gmwe) * ci == (pow_mod(cv, e, n) * pow_mod(tr, 0, n)) * (ai * bms * gmwe * ci)) by (nonlinear_arith);
+    assert(pow_mod(cv, e, n) * 1 == pow_mod(cv, e, n));
+    assert((pow_mod(cv, e, n) * 1) * (ai * bms * gmwe * ci) == stmt);
+    assert(cong(pw_prod(bsq, sig, n, 6), 1, n));
+    lemma_pw_complete(bsq, rho, sig, xsq, c, n);
+    // ---- (3) the verifier's expression is pw_prod(bsq, xsq) modulo n
+    let (cs4, tri, amc, bm6, gm8, cmc) = (pow_mod(cv, s4, n), pow_mod(tr, -1, n), pow_mod(aa, -1 * c, n), pow_mod(b, -1 * s6, n), pow_mod(g0, -1 * s8, n), pow_mod(cpk, -1 * c, n));
+    assert(pw_prod(bsq, xsq, n, 6) == (((((1 * cs4) * tri) * amc) * bm6) * gm8) * cmc) by { reveal_with_fuel(pw_prod, 7); }
+    // divm(1, tx) == (tr^-1 * A^-c) % n
+    let y = (tri * amc) % n;
+    lemma_pw_response(as_, rs, ms, xs, c, n, k);
+    lemma_cong_mod(px, n); lemma_cong_mod(pr, n);
+    let ac = pow_mod(aa, c, n);
+    lemma_cong_mul(pr, tr, ac, ac, n);
+    assert(cong(tx, tr * ac, n));
+    lemma_unit_cancel(tr, 1, n);
+    lemma_unit_cancel(aa, c, n);
+    lemma_cong_mod(tri * amc, n);
+    lemma_cong_mul(y, tri * amc, tx, tr * ac, n);
+    assert((tri * amc) * (tr * ac) == (tr * tri) * (ac * amc)) by (nonlinear_arith);
+    lemma_cong_mul(tr * tri, 1, ac * amc, 1, n);
+    assert(cong(y * tx, 1, n));
+    ax_divm_unique(1, tx, n, y);
+    let d = divm_spec(1, tx, n);
+    assert(d == y);
+    lemma_divm_inv(b, s6, n); lemma_divm_inv(g0, s8, n);
+    lemma_cong_mul(cs4, cs4, d, tri * amc, n);
+    lemma_cong_mul(cs4 * d, cs4 * (tri * amc), bm6, bm6, n);
+    lemma_cong_mul((cs4 * d) * bm6, (cs4 * (tri * amc)) * bm6, gm8, gm8, n);
+    lemma_cong_mul(((cs4 * d) * bm6) * gm8, ((cs4 * (tri * amc)) * bm6) * gm8, cmc, cmc, n);
+    assert((((cs4 * (tri * amc)) * bm6) * gm8) * cmc == (((((1 * cs4) * tri) * amc) * bm6) * gm8) * cmc) by (nonlinear_arith);
+    // ---- (4) the prover's expression is pw_prod(bsq, rho) modulo n
+    let (cr4, bm6r, gm8r) = (pow_mod(cv, r4, n), pow_mod(b, -1 * r6, n), pow_mod(g0, -1 * r8, n));
+    ax_pow_mod_one(aa, n); ax_pow_mod_one(cpk, n);
+    assert(pw_prod(bsq, rho, n, 6) == (((((1 * cr4) * tri) * pow_mod(aa, 0, n)) * bm6r) * gm8r) * pow_mod(cpk, 0, n)) by { reveal_with_fuel(pw_prod, 7); }
+    lemma_divm_inv(tr, 1, n);
+    lemma_divm_inv(b, r6, n); lemma_divm_inv(g0, r8, n);
+    let rhs0 = ((cr4 * tri) * bm6r) * gm8r;
+    lemma_cong_mul(cr4 * tri, cr4 * tri, pow_mod(aa, 0, n), 1, n);
+    lemma_cong_mul((cr4 * tri) * pow_mod(aa, 0, n), (cr4 * tri) * 1, bm6r, bm6r, n);
+    lemma_cong_mul(((cr4 * tri) * pow_mod(aa, 0, n)) * bm6r, ((cr4 * tri) * 1) * bm6r, gm8r, gm8r, n);
+    lemma_cong_mul((((cr4 * tri) * pow_mod(aa, 0, n)) * bm6r) * gm8r, (((cr4 * tri) * 1) * bm6r) * gm8r, pow_mod(cpk, 0, n), 1, n);
+    assert((cr4 * tri) * 1 == cr4 * tri);
+    assert(((((cr4 * tri) * 1) * bm6r) * gm8r) * 1 == rhs0);
+    assert(1 * cr4 == cr4);
+}
